@@ -173,3 +173,26 @@ def _install3():
 
 
 _install3()
+
+
+def is_nan(x):
+    """x is a missing value (NaN)."""
+    return isinstance(x, float) and x != x
+
+
+def _install4():
+    from . import lib
+    from .engine import is_sym
+
+    @lib.handler(is_nan)
+    def h_is_nan(it, x):
+        from .frames import NAN
+
+        if x is NAN:
+            return True
+        if is_sym(x):
+            return False  # terms are finite reals (A1)
+        return isinstance(x, float) and x != x
+
+
+_install4()
